@@ -338,7 +338,14 @@ func genTwin(r *rand.Rand, focus string) *TwinParams {
 			}
 		default:
 			if focus == "values" && !inTxn {
-				switch r.IntN(2) {
+				switch r.IntN(3) {
+				case 2:
+					// a value written to the KEY column of an existing row: the table does not move rows, so it
+					// must refuse - also when the new value merely converts to the old one (1 -> '1', 1 -> 1.5,
+					// 1 -> 4294967297, '7' -> 7), where it used to report success and store nothing
+					k := key()
+					nv := []TV{tvS("1"), tvR(1.5), tvI(4294967297), tvI(1), tvS("x"), tvNull(), tvB([]byte{0}), tvR(3.0), tvI(3), tvS("hello"), anykey()}[r.IntN(11)]
+					add(TwinStep{Kind: "key-update", SQL: "UPDATE {T} SET k = ? WHERE k = ?", Args: []TV{nv, k}})
 				case 0:
 					// another writer touches other rows / other columns with a later write time
 					col := p.Cols[r.IntN(len(p.Cols))]
@@ -645,6 +652,28 @@ func runTwin(x *Exec, prop string) {
 						return
 					}
 					if !compareAll("after refresh") {
+						return
+					}
+				case "key-update":
+					if inTxn || len(st.Args) != 2 {
+						continue
+					}
+					// only when the row exists and the new key differs from the old one bit for bit
+					if Canon(st.Args[0].Arg()) == Canon(st.Args[1].Arg()) {
+						continue
+					}
+					hit, herr := c.Query(strings.ReplaceAll("SELECT count(*) FROM {T} WHERE k = ?", "{T}", "n"), st.Args[1].Arg())
+					if herr != nil || len(hit) != 1 || hit[0][0] != "i:1" {
+						continue
+					}
+					_, es := c.Exec("UPDATE "+t+" SET k = ? WHERE k = ?", args(st.Args)...)
+					x.Check()
+					if es == nil {
+						fail("-key-update-accepted", "%s reported success on a table that cannot move a row to another key", desc)
+						return
+					}
+					x.Probe("key-update-refused")
+					if !compareAll("after refused " + desc) {
 						return
 					}
 				case "peer":
